@@ -4,9 +4,18 @@ Theorems: lean/PersimVerif/Props/C09.lean over the model lean/PersimVerif/Model/
 ordered field).  Tie: histories of the real operators (`+ - neg * rmul /`, `snap_pl`, `lc_approx`,
 `average_approx`) on landscapes built by the real constructors, replayed by the model at `Rat` from the
 *leaves* (driver ops `pla.xhist`, `pla.ghist`, `pla.xexpr`, `pla.xdenote`, `pla.gexpr`, `pla.gdenote`).
-[T]: (a) the statement's pointwise laws and rejection rules evaluated on the real code alone with exact
+[T]: (a) the statement's pointwise laws and rejection rule evaluated on the real code alone with exact
 rational arithmetic (this is also the failing-input search when code and model disagree);
-(b) every live operand byte-compared before/after every operation and at the end of every history.
+(b) the public attributes and the represented function of every live operand compared by value before/after every
+operation and at the end of every history.
+
+What decides a VIOLATION with a failing input is the statement only: a law of (a) fails, a mismatched degree / grid is
+NOT rejected (any exception counts as rejected), an operation on well-formed operands with a real scalar raises, or the
+VALUE of a public attribute of an operand changes.  Differences from the model that the statement does not fix - the
+exception class or which check fired, what happens for a zero divisor or a non-number scalar (outside "all real
+scalars"), the number of all-zero trailing rows of a grid result, bytes / container types of equal values - are
+reported as correspondence breaks (`no-failing-input-found`, at most three printed per run, never ending the search);
+private attributes (caches) are not compared at all when new and only counted when rewritten.
 
 What is compared how
   * breakpoint lists: the model mirrors `sum_slopes`/`union_crit_pairs` literally and abscissae are only
@@ -18,7 +27,7 @@ What is compared how
     and compared with the pointwise operation on the operands' functions (missing depth = 0);
   * grid values: shape and grid parameters exactly, samples as above; `snap_pl` against an independent
     rational interpolation; `lc_approx`/`average_approx` against the same combination of the code's own
-    `snap_pl` output;  error kinds (exception class + which check fired) exactly.
+    `snap_pl` output;  error kinds (exception class + which check fired) exactly against the model (correspondence).
 """
 import contextlib
 import io
@@ -45,15 +54,30 @@ ASSUMPTIONS = [
     "np.int64 with GRID landscapes is generated too since the repo fix to numbers.Real (before it, isinstance(other, (int, float)) made a "
     "NumPy integer fails: `P * np.int64(2)` raises TypeError while `np.int64(2) * P` goes through NumPy's object dispatch); "
     "float32 scalars and bool are dispatched by numpy/Python coercion rules and are not modelled",
-    "operands untouched: every attribute of every live landscape is byte-compared before/after each operation and at the end of the "
-    "history.  For a leaf built with compute=False the attributes `critical_pairs`/`max_depth` are a cache that the first operation "
-    "fills; there the REPRESENTED FUNCTION is compared instead (stored critical pairs, or what the constructor computes from the "
-    "stored diagram while the cache is empty) together with all other attributes: filling the cache is not a change, a changed "
+    "operands untouched ('observably unchanged'): the PUBLIC attributes (names not starting with '_': critical_pairs / values / start / "
+    "stop / num_steps / hom_deg / dgms / max_depth ...) of every live landscape, and the argument lists handed to snap/lc/avg, are "
+    "compared before/after each operation and at the end of the history.  A changed VALUE (numbers as numbers, list/tuple/ndarray as "
+    "sequences) or a removed public attribute is a failing input; equal values with other bytes or container types (int -> float, "
+    "list -> tuple, -0.0 -> 0.0) or a new public attribute are a correspondence break only; a NEW private attribute (a cache set on "
+    "first use) is no change, a rewritten pre-existing private attribute is counted in the evidence only.  For a leaf built with "
+    "compute=False the attributes `critical_pairs`/`values`/`max_depth` are a cache that the first operation "
+    "fills; there the REPRESENTED FUNCTION is compared instead (stored critical pairs / values, or what the constructor computes from the "
+    "stored diagram while the cache is empty) together with all other public attributes: filling the cache is not a change, a changed "
     "function or diagram is",
+    "'mismatched degrees or grids are rejected': any exception satisfies the clause, returning a value violates it (for well-formed "
+    "operands); the exception class and which check fired are compared with the model as correspondence only.  A zero divisor and "
+    "non-number scalars / coefficients (str, None, list) are OUTSIDE the quantifier ('all real scalars'): they are generated, the "
+    "outcome is compared with the model, but whatever the code does there is never a failing input; a history ends at an operation "
+    "where the code returns a landscape although the reference tree raises",
+    "grid results are compared as functions: a missing depth counts as zero on either side, so trailing all-zero rows dropped from (or "
+    "added to) a result satisfy the laws; the row count is compared with the model's (correspondence).  Samples exactly on exact "
+    "histories, within 2 ulp of the correctly rounded value otherwise; lc/avg within 1e-12 of the largest term; snap and the exact "
+    "pointwise law on non-dyadic histories within 1e-9 of the largest ordinate involved (no absolute floor)",
     "ordinates of exact landscapes are floats (str * int would repeat the string instead of raising)",
     "grid landscapes have a float `values` array of shape (depths, num_steps); a diagram none of whose bars is visible on the "
     "grid gives one zero row (generated on purpose: bars shorter than a step); a non-numeric `values` from the constructor "
-    "(the former string placeholder array(['empty'])) is reported as a violation with the arithmetic law that fails on it",
+    "(the former string placeholder array(['empty'])) is reported as a violation with the arithmetic law that fails on it; a non-float "
+    "`values` that behaves as the zero function in every probe (say integer zeros) is a correspondence break only",
     "lc_approx on an empty product list returns the numpy scalar 0 rather than a landscape; the model calls that notLandscape "
     "(an empty landscape list together with non-numeric coefficients is numpy dtype resolution on empty arrays and is not generated)",
     "np.interp / np.linspace behave as the model's interp/linspace in exact arithmetic (compared on every snap)",
@@ -241,18 +265,87 @@ def _deep(o):
 
 
 def snapshot(pl, lazy=False):
-    """every attribute of a landscape object, values and container types, as a comparable tree.
-    `lazy` (a leaf built with compute=False): the first operation computes the landscape and stores it in the operand
-    (`critical_pairs`, `max_depth`) — that fills a cache and does not change the function the operand represents.  For such a
-    leaf the cache attributes are replaced by the represented function itself (`cps_of`: the stored critical pairs, or what
-    the constructor computes from the stored diagram while the cache is empty); every other attribute is still compared."""
-    if lazy and not is_exact(pl):
-        items = [(k, _deep(v)) for k, v in sorted(vars(pl).items()) if k not in ("values", "max_depth")]
-        return tuple(items) + (("represented_function", _deep(vals_of(pl))),)
+    """the observable state of a landscape object as comparable trees (values and container types):
+    `pub`  - every PUBLIC attribute (name not starting with `_`): critical_pairs / values / start / stop / num_steps /
+             hom_deg / dgms / max_depth ...;
+    `priv` - the private attributes that exist at this moment (caches, helpers);
+    `fn`   - for a leaf built with compute=False only: the represented function.  The first operation computes the landscape
+             and stores it in the operand (`critical_pairs` / `values`, `max_depth`) - that fills a cache and does not change the
+             function the operand represents.  For such a leaf the cache attributes are left out of `pub` and replaced by the
+             represented function itself (`cps_of` / `vals_of`: the stored critical pairs / values, or what the constructor
+             computes from the stored diagram while the cache is empty); every other attribute is still compared.
+    For every other landscape the represented function IS the public attributes critical_pairs / values (+ grid parameters)."""
+    skip = ()
+    fn = None
     if lazy:
-        items = [(k, _deep(v)) for k, v in sorted(vars(pl).items()) if k not in ("critical_pairs", "max_depth")]
-        return tuple(items) + (("represented_function", _deep(cps_of(pl))),)
-    return tuple((k, _deep(v)) for k, v in sorted(vars(pl).items()))
+        skip = ("values", "max_depth") if not is_exact(pl) else ("critical_pairs", "max_depth")
+        fn = _deep(vals_of(pl) if not is_exact(pl) else cps_of(pl))
+    pub, priv = {}, {}
+    for k, v in vars(pl).items():
+        if k in skip:
+            continue
+        (priv if k.startswith("_") else pub)[k] = _deep(v)
+    return {"pub": pub, "priv": priv, "fn": fn}
+
+
+def _value(t):
+    """a `_deep` tree by VALUE: numbers as floats (int 2 == float 2.0 == np.float64(2), -0.0 == 0.0, NaN == NaN), list / tuple /
+    ndarray all as sequences; everything else (str, None, objects) by type and repr"""
+    if isinstance(t, tuple) and t and t[0] == "nd":
+        _, dt, shape, raw = t
+        arr = np.frombuffer(raw, dtype=np.dtype(dt)).reshape(shape)
+        if arr.dtype.kind in "fiub":
+            return _value(_deep(arr.astype(float).tolist()))
+        return ("seq-other", dt, shape, raw)
+    if isinstance(t, tuple) and t and t[0] in ("list", "tuple"):
+        return ("seq",) + tuple(_value(x) for x in t[1:])
+    if isinstance(t, tuple) and len(t) == 2 and isinstance(t[1], str) and t[0] in ("float", "float64", "float32", "float16", "longdouble"):
+        x = float.fromhex(t[1]) if t[1] not in ("nan", "inf", "-inf") else float(t[1])
+        return ("num", "nan" if x != x else (x + 0.0 if x != 0 else 0.0))
+    if isinstance(t, tuple) and len(t) == 2 and isinstance(t[1], int) and not isinstance(t[1], bool):
+        return ("num", float(t[1]) if abs(t[1]) < 2 ** 53 else t[1])
+    return t
+
+
+def snapshot_diff(before, after):
+    """what changed in one landscape object between two snapshots, as (observable, representation_only, private):
+    observable          - names of PUBLIC attributes whose VALUE changed or that disappeared, and 'represented function' for a
+                          compute=False leaf: this is the property's clause "operands observably unchanged";
+    representation_only - public attributes whose value is the same but whose bytes / container types differ (list -> tuple,
+                          int -> float, -0.0 -> 0.0) and NEW public attributes: not fixed by the property, reported as a
+                          correspondence break (no failing input) at most;
+    private             - private attributes that existed before and were rewritten or removed (a cache being updated): counted
+                          in the evidence only.  A NEW private attribute (a cache such as `_slopes` set on first use) is no
+                          change at all."""
+    obs, rep, prv = [], [], []
+    for k, v in before["pub"].items():
+        if k not in after["pub"]:
+            obs.append(k + " (removed)")
+        elif after["pub"][k] != v:
+            (obs if _value(after["pub"][k]) != _value(v) else rep).append(k)
+    rep.extend(k + " (new public attribute)" for k in after["pub"] if k not in before["pub"])
+    if before["fn"] != after["fn"]:
+        if before["fn"] is None or after["fn"] is None or _value(before["fn"]) != _value(after["fn"]):
+            obs.append("represented function")
+        else:
+            rep.append("represented function (bytes)")
+    for k, v in before["priv"].items():
+        if k not in after["priv"] or after["priv"][k] != v:
+            prv.append(k)
+    return obs, rep, prv
+
+
+def snapshots_diff(before, after):
+    """the same for a list of live landscapes: ([[register, name]...] observable, [...] representation only, [...] private)"""
+    obs, rep, prv = [], [], []
+    for i, (b, a) in enumerate(zip(before, after)):
+        if b == a:
+            continue
+        o, r_, p_ = snapshot_diff(b, a)
+        obs.extend([i, k] for k in o)
+        rep.extend([i, k] for k in r_)
+        prv.extend([i, k] for k in p_)
+    return obs, rep, prv
 
 
 def is_exact(pl):
@@ -395,7 +488,8 @@ def pointwise_exact(op, regs_cps, res_cps, exact, cap=60):
         step = len(pts) / float(cap)
         pts = [pts[int(i * step)] for i in range(cap)]
     depths = max(len(A), len(R), len(B) if B is not None else 0) + 1
-    scale = max([abs(p[1]) for cps in [A, R] + ([B] if B is not None else []) for d in cps for p in d] + [Fr(1)])
+    # 1e-9 relative to the largest ordinate of operands and result (no absolute floor: small units are checked as sharply)
+    scale = max([abs(p[1]) for cps in [A, R] + ([B] if B is not None else []) for d in cps for p in d] + [Fr(0)])
     tol = Fr(0) if exact else Fr(TOL) * scale
     for k in range(depths):
         a, r = depth_fn(A, k), depth_fn(R, k)
@@ -522,19 +616,33 @@ def known_filter(ctx, op, regs_cps, res_cps, exact, bad):
     return bad
 
 
-def expected_rejection_exact(op, regs):
-    """the rejections the statement names (mismatched degree, zero divisor, non-number), written independently"""
+def outside_quantifier(op):
+    """a scalar operation whose scalar is OUTSIDE the property's quantifier ("all real scalars"; a quotient by 0 is not a
+    pointwise operation on functions): 'zero_divisor' / 'non_number', with the exception class of the reference tree; else None.
+    Whatever the code does there (ZeroDivisionError, ValueError, TypeError, coercing "2", returning inf) is never a failing
+    input of the property; a difference from the model is a correspondence matter only."""
     name = op[0]
-    if name in ("add", "sub") and regs[op[1]].hom_deg != regs[op[2]].hom_deg:
-        return "ValueError"
     if name == "div":
         if is_number(op[2]) and num_of(op[2]) == 0:
-            return "ValueError"
+            return ("zero_divisor", "ValueError")
         if not is_number(op[2]):
-            return "TypeError"
+            return ("non_number", "TypeError")
     if name in ("mul", "rmul") and not is_number(op[2]):
-        return "TypeError"
+        return ("non_number", "TypeError")
+    if name == "lc" and any(not is_number(c) for c in op[2]):
+        return ("non_number", "TypeError")
     return None
+
+
+def expected_rejection_exact(op, regs):
+    """None, or (kind, exception class of the reference tree), written independently of the model:
+    ('mismatch', ..)      - the rejection the statement names: mismatched degrees.  ANY exception satisfies the clause, the
+                            class is compared with the model's as correspondence only; returning a value violates it;
+    ('zero_divisor', ..) / ('non_number', ..) - outside the quantifier, see outside_quantifier"""
+    name = op[0]
+    if name in ("add", "sub") and regs[op[1]].hom_deg != regs[op[2]].hom_deg:
+        return ("mismatch", "ValueError")
+    return outside_quantifier(op) if name in ("mul", "rmul", "div") else None
 
 
 def interp_spec(x, xp, fp):
@@ -858,8 +966,11 @@ class Run:
         self.regs = []
         self.outcomes = []         # per op: ("ok", [new register indices]) or ("err", tag)
         self.ops = []              # ops with register indices clamped to what exists
-        self.untouched = True
-        self.touched_at = None
+        self.untouched = True      # the property's clause: no public attribute / represented function of a live operand and no
+        self.touched_at = None     # argument list changed its VALUE (op index of the first change, -1 = seen at the end only)
+        self.touched_what = []     # [[register, attribute]...] of that first change
+        self.repr_only = []        # [[op index, register, what]...]: same value, other bytes / types (correspondence only)
+        self.private_changes = 0   # rewritten pre-existing private attributes (counted only)
         self.shared = 0
         self.leaf_error = None
         self.lazy_leaves = 0
@@ -894,6 +1005,7 @@ def run_history(hist, ctx=None):
             run.op_exact.append(result_exact(run, op))
             thunk, conts = prepare(run.regs, op)
             cview = containers_view(conts)
+            rej = expected_rejection(hist["cls"], op, run.regs) or outside_quantifier(op)
             before = snaps()
             try:
                 res = thunk()
@@ -901,9 +1013,16 @@ def run_history(hist, ctx=None):
             except Exception as e:
                 res, out = None, ("err", errtag(e))
             after = snaps()[:len(before)]
-            if before != after or cview != containers_view(conts):
+            obs, ronly, prv = snapshots_diff(before, after)
+            run.private_changes += len(prv)
+            cview2 = containers_view(conts)
+            if cview != cview2:          # the lists handed to snap/lc/avg: same members (by identity), same coefficients (by value)
+                (obs if _value(cview) != _value(cview2) else ronly).append([-1, "an argument list handed to the operation"])
+            run.repr_only.extend([len(run.ops) - 1] + x for x in ronly)
+            if obs:
                 if run.untouched:
                     run.touched_at = len(run.ops) - 1
+                    run.touched_what = obs
                 run.untouched = False
             if out is None and is_exact_obj(res) and not numeric_cps(res):
                 # a non-number scalar met only Python-int ordinates (`[1.0] * 0 == []`, `"x" * 0 == ""`): no exception, a
@@ -925,11 +1044,21 @@ def run_history(hist, ctx=None):
                     run.reg_exact.extend([run.op_exact[-1]] * len(new))
                     out = ("ok", idx, isinstance(res, list))
             run.outcomes.append(out)
-        last = snaps()[:len(first)]
-        if last != first:
-            run.untouched = False
-            if run.touched_at is None:
+            if out[0] == "ok" and rej is not None:
+                # the code returned a landscape where the reference tree (and the model) raise: the model's registers would be
+                # numbered differently from here on, so the history ends with this operation.  For a degree / grid mismatch
+                # that is a failing input (check_laws); for a zero divisor or a non-number it is outside the quantifier and
+                # only the code/model comparison reports it (no-failing-input-found).
+                run.outside = "accepted_where_reference_raises:" + rej[0]
+                break
+        obs, ronly, _ = snapshots_diff(first, snaps()[:len(first)])
+        if obs:
+            if run.untouched:
                 run.touched_at = -1
+                run.touched_what = obs
+            run.untouched = False
+        if ronly and not run.repr_only:
+            run.repr_only.extend([-1] + x for x in ronly)
     return run
 
 
@@ -1105,37 +1234,54 @@ def tree_of(run, target, cap=1500):
 
 # --------------------------------------------------------------------------- [T] laws on the real code (grid side)
 
+def _rows(pl):
+    """the sample rows of a grid landscape as lists of floats ((0, n) and (0,) arrays: no rows, i.e. the zero function)"""
+    v = np.asarray(pl.values, dtype=float)
+    return v.tolist() if v.ndim == 2 else ([] if v.size == 0 else [v.ravel().tolist()])
+
+
+def ulps(*xs):
+    """rounding-level slack for ONE correctly rounded float operation on values of these sizes (2 ulp of the largest)"""
+    return 4.5e-16 * max(abs(x) for x in xs)
+
+
 def grid_law(op, regs, res, exact):
-    """the statement's law for one successful grid operation on the code's own objects; None if it holds"""
+    """the statement's law for one successful grid operation on the code's own objects; None if it holds.
+    Rows are compared as FUNCTIONS: a depth missing in the result (or in an operand) counts as the zero function, so a result
+    without its trailing all-zero rows, or with extra all-zero rows, satisfies the law (the row COUNT is compared with the
+    model's in `process`, as correspondence only).  Samples: exactly on exact histories (every float operation is exact there,
+    whatever the order of evaluation); otherwise within 2 ulp of the correctly rounded pointwise value."""
     name = op[0]
     if name in ("add", "sub", "neg", "mul", "rmul", "div"):
-        a = np.asarray(regs[op[1]].values, dtype=float).tolist()
-        r = np.asarray(res.values, dtype=float).tolist()
-        b = np.asarray(regs[op[2]].values, dtype=float).tolist() if name in ("add", "sub") else None
-        rows = max(len(a), len(b) if b is not None else 0)
-        if len(r) != rows:
-            return {"rows": len(r), "expected_rows": rows}
-        n = int(regs[op[1]].num_steps)
-        if any(len(row) != len(a[0]) for row in r):
-            return {"row_width": [len(row) for row in r]}
+        a, r = _rows(regs[op[1]]), _rows(res)
+        b = _rows(regs[op[2]]) if name in ("add", "sub") else None
+        rows = max(len(a), len(b) if b is not None else 0, len(r))
         keep = regs[op[1]]
+        n = int(keep.num_steps)
+        if any(len(row) != n for row in r):
+            return {"row_width": [len(row) for row in r], "num_steps": n}
         if (res.start, res.stop, res.num_steps, res.hom_deg) != (keep.start, keep.stop, keep.num_steps, keep.hom_deg):
             return {"grid": [res.start, res.stop, res.num_steps, res.hom_deg]}
         c = num_of(op[2]) if name in ("mul", "rmul", "div") else None
         for k in range(rows + 1):
-            for j in range(len(a[0])):
+            for j in range(n):
                 va = gval(a, k, j)
                 if name == "add":
-                    want, tol = va + gval(b, k, j), 0.0
+                    vb = gval(b, k, j)
+                    want, tol = va + vb, ulps(va, vb)
                 elif name == "sub":
-                    want, tol = va - gval(b, k, j), 0.0
+                    vb = gval(b, k, j)
+                    want, tol = va - vb, ulps(va, vb)
                 elif name == "neg":
                     want, tol = -va, 0.0
                 elif name in ("mul", "rmul"):
-                    want, tol = c * va, 0.0
+                    want = c * va
+                    tol = ulps(want)
                 else:
                     want = va / c
-                    tol = 0.0 if exact else 4e-16 * abs(want)
+                    tol = ulps(want)
+                if exact:
+                    tol = 0.0
                 got = gval(r, k, j)
                 if not (abs(got - want) <= tol):
                     return {"depth": k, "sample": j, "result": got, "pointwise": want}
@@ -1144,75 +1290,88 @@ def grid_law(op, regs, res, exact):
 
 
 def snap_law(pls, snapped, s, t, n):
-    """re-sampling is linear interpolation of every depth at the common grid points (constant outside)"""
+    """re-sampling is linear interpolation of every depth at the common grid points (constant outside); a depth missing on
+    either side counts as the zero function.  Tolerance 1e-9 relative to the largest sample of the re-sampled landscape (no
+    absolute floor: landscapes in small units are checked as sharply as any other)."""
     if len(pls) != len(snapped):
         return {"count": len(snapped)}
-    S = min(p.start for p in pls) if s is None else s
-    T = max(p.stop for p in pls) if t is None else t
-    N = max(p.num_steps for p in pls) if n is None else n
+    if not snapped:
+        return None
+    # the common grid: the parameters that were given; for those that were not, whatever grid the outputs share (the reference
+    # tree takes the tightest hull - a default the statement does not mention, compared with the model's as correspondence)
+    if len({(q.start, q.stop, q.num_steps) for q in snapped}) > 1:
+        return {"not_a_common_grid": [[q.start, q.stop, q.num_steps] for q in snapped]}
+    S = snapped[0].start if s is None else s
+    T = snapped[0].stop if t is None else t
+    N = snapped[0].num_steps if n is None else n
+    if isinstance(N, bool) or not isinstance(N, (int, np.integer)) or N < 1 or not all(math.isfinite(x) for x in (S, T)):
+        return {"grid": [S, T, N]}
+    N = int(N)
     grid = linspace_spec(S, T, N)
     for p, q in zip(pls, snapped):
         if (q.start, q.stop, q.num_steps, q.hom_deg) != (S, T, N, p.hom_deg):
             return {"grid": [q.start, q.stop, q.num_steps, q.hom_deg], "expected": [S, T, N, p.hom_deg]}
         xp = linspace_spec(p.start, p.stop, p.num_steps)
-        pv = np.asarray(p.values, dtype=float).tolist()
-        qv = np.asarray(q.values, dtype=float).tolist()
-        if len(pv) != len(qv):
-            return {"rows": len(qv), "expected_rows": len(pv)}
-        scale = max([abs(x) for row in pv for x in row] + [1.0])
+        pv, qv = _rows(p), _rows(q)
+        if any(len(row) != N for row in qv):
+            return {"row_width": [len(row) for row in qv], "num_steps": N}
+        scale = max([abs(x) for row in pv for x in row] + [0.0])
         razor = p.num_steps > 1 and p.start == p.stop     # a step function: only dyadic grids are decided exactly
-        for k, row in enumerate(pv):
-            fp = [Fr(x) for x in row]
-            if len(qv[k]) != N:
-                return {"row_width": len(qv[k])}
+        for k in range(max(len(pv), len(qv))):
+            fp = [Fr(x) for x in pv[k]] if k < len(pv) else None
             for j, x in enumerate(grid):
-                want = float(interp_spec(x, xp, fp))
-                if abs(qv[k][j] - want) > TOL * scale:
+                want = float(interp_spec(x, xp, fp)) if fp is not None else 0.0
+                got = gval(qv, k, j)
+                if not abs(got - want) <= TOL * scale:
                     if razor and abs(float(x) - p.start) <= 1e-9 * max(1.0, abs(p.start)):
                         continue
-                    return {"landscape": pls.index(p), "depth": k, "node": j, "result": qv[k][j], "interpolated": want}
+                    return {"landscape": pls.index(p), "depth": k, "node": j, "result": got, "interpolated": want}
     return None
 
 
 def lc_law(tl, pls, cs, s, t, n, res):
-    """linear combination = the same combination of the re-sampled values (missing rows = 0)"""
+    """linear combination = the same combination of the re-sampled values (missing rows = 0, on either side).  Tolerance:
+    rounding level, 1e-12 relative to the largest term of the sample's own sum (no absolute floor)."""
     snapped = tl.snap_pl(pls, start=s, stop=t, num_steps=n)
     if len(cs) == 1 and len(snapped) != 1:
         cs = cs * len(snapped)
     if len(snapped) == 1 and len(cs) != 1:
         snapped = snapped * len(cs)
-    vals = [np.asarray(q.values, dtype=float).tolist() for q in snapped]
-    r = np.asarray(res.values, dtype=float).tolist()
-    rows = max(len(v) for v in vals)
-    if len(r) != rows:
-        return {"rows": len(r), "expected_rows": rows}
+    vals = [_rows(q) for q in snapped]
+    r = _rows(res)
+    rows = max([len(v) for v in vals] + [len(r)])
     q0 = snapped[0]
     if (res.start, res.stop, res.num_steps, res.hom_deg) != (q0.start, q0.stop, q0.num_steps, q0.hom_deg):
         return {"grid": [res.start, res.stop, res.num_steps]}
+    N = int(q0.num_steps)
+    if any(len(row) != N for row in r):
+        return {"row_width": [len(row) for row in r], "num_steps": N}
     for k in range(rows):
-        for j in range(len(r[k])):
+        for j in range(N):
             terms = [c * gval(v, k, j) for c, v in zip(cs, vals)]
             want = math.fsum(terms)
-            tol = 1e-12 * max([abs(x) for x in terms] + [1.0])
-            if not abs(r[k][j] - want) <= tol:
-                return {"depth": k, "node": j, "result": r[k][j], "combination": want}
+            tol = 1e-12 * max([abs(x) for x in terms] + [0.0])
+            got = gval(r, k, j)
+            if not abs(got - want) <= tol:
+                return {"depth": k, "node": j, "result": got, "combination": want}
     return None
 
 
 def expected_rejection_grid(op, regs):
+    """as expected_rejection_exact: ('mismatch', ..) for mismatched degrees or grids (any exception satisfies the statement),
+    ('zero_divisor' / 'non_number', ..) outside the quantifier"""
     name = op[0]
     if name in ("add", "sub"):
         a, b = regs[op[1]], regs[op[2]]
         if a.hom_deg != b.hom_deg or a.start != b.start or a.stop != b.stop or a.num_steps != b.num_steps:
-            return "ValueError"
-    if name == "div":
-        if is_number(op[2]) and num_of(op[2]) == 0:
-            return "ValueError"
-        if not is_number(op[2]):
-            return "TypeError"
-    if name in ("mul", "rmul") and not is_number(op[2]):
-        return "TypeError"
-    return None
+            return ("mismatch", "ValueError")
+    return outside_quantifier(op) if name in ("mul", "rmul", "div") else None
+
+
+def expected_rejection(cls, op, regs):
+    if op[0] not in ("add", "sub", "mul", "rmul", "div"):
+        return None
+    return (expected_rejection_exact if cls == "exact" else expected_rejection_grid)(op, regs)
 
 
 # --------------------------------------------------------------------------- one history end to end
@@ -1227,16 +1386,25 @@ def check_laws(ctx, run):
         regs_cps = [cps_of(p) if is_exact(p) else None for p in regs]
         for i, (op, out) in enumerate(zip(run.ops, run.outcomes)):
             name = op[0]
-            want_rej = (expected_rejection_exact if hist["cls"] == "exact" else expected_rejection_grid)(op, regs) \
-                if name in ("add", "sub", "mul", "rmul", "div") else None
-            if want_rej is not None:
-                # the kind is part of the law only for well-formed operands (a malformed operand may be
-                # rejected for its own reason first; the exact kind is then the correspondence's business)
-                opnds = [regs[j] for j in (op[1:3] if name in ("add", "sub") else op[1:2])]
-                ok = out[0] == "err" and (out[1].startswith("err:" + want_rej) or not all(wf_landscape_py(x) for x in opnds))
-                ctx.test("rejections", ok)
-                if not ok:
-                    fails.append({"op_index": i, "op": op, "law": "must be rejected with " + want_rej, "outcome": list(out)})
+            want_rej = expected_rejection(hist["cls"], op, regs)
+            if name == "lc" and outside_quantifier(op) is not None:
+                want_rej = outside_quantifier(op)
+            if want_rej is not None and want_rej[0] == "mismatch":
+                # "mismatched degrees or grids are rejected": ANY exception satisfies the clause (the class and which check
+                # fired are compared with the model's in `process`, as correspondence only); returning a value violates it.
+                # Claimed as a failing input only for well-formed operands (a malformed operand is outside the quantifier).
+                opnds = [regs[j] for j in op[1:3]]
+                rejected = out[0] == "err"
+                if all(wf_landscape_py(x) for x in opnds):
+                    ctx.test("rejections", rejected)
+                    if not rejected:
+                        fails.append({"op_index": i, "op": op, "law": "mismatched degrees or grids must be rejected (any exception)",
+                                      "outcome": list(out)})
+                if rejected:
+                    ctx.count("mismatch_rejected_with:" + out[1].split(":")[1])
+            elif want_rej is not None:
+                # zero divisor / non-number scalar: outside the quantifier ("all real scalars"), nothing is demanded
+                ctx.count("outside_quantifier:%s:%s" % (want_rej[0], out[1].split(":")[1] if out[0] == "err" else "accepted"))
             valid = name in ("add", "sub", "neg", "mul", "rmul", "div") and want_rej is None and \
                 all(wf_landscape_py(regs[j]) for j in (op[1:3] if name in ("add", "sub") else op[1:2]))
             try:
@@ -1275,7 +1443,7 @@ def check_laws(ctx, run):
                     fails.append({"op_index": i, "op": op, "law": "snap", "at": bad})
             elif name in ("lc", "avg"):
                 pls = [regs[j] for j in op[1]]
-                cs = [num_of(c) if is_number(c) else scalar_of(c) for c in op[2]] if name == "lc" else [1.0 / len(pls)] * len(pls)
+                cs = [num_of(c) for c in op[2]] if name == "lc" else [1.0 / len(pls)] * len(pls)
                 s, t, n = (op[3], op[4], op[5]) if name == "lc" else (op[2], op[3], op[4])
                 bad = lc_law(tl, pls, cs, s, t, n, res)
                 ctx.test("lc_is_combination" if name == "lc" else "average_is_mean", bad is None)
@@ -1292,10 +1460,24 @@ def check_laws(ctx, run):
     return fails
 
 
-def placeholder_violation(ctx, hist):
-    """A grid landscape built by the real constructor from a diagram has non-numeric `values` (the string placeholder
+def same_function_rows(got, want):
+    """two sample arrays as functions on the same nodes: equal values, a missing row counts as zero"""
+    try:
+        g = np.asarray(got, dtype=float)
+    except (TypeError, ValueError):
+        return False
+    g = g.tolist() if g.ndim == 2 else ([] if g.size == 0 else [g.ravel().tolist()])
+    n = len(want[0])
+    if any(len(row) != n for row in g):
+        return False
+    return all(gval(g, k, j) == gval(want, k, j) for k in range(max(len(g), len(want))) for j in range(n))
+
+
+def placeholder_probe(hist):
+    """A grid landscape built by the real constructor from a diagram has non-float `values` (the string placeholder
     ['empty'] of the code before /repo 357d745, when no bar is visible on the grid).  Such a landscape is the zero function;
-    the statement's laws are evaluated on it: P + Q = Q, 2 * P = 0, snap_pl([P]) = 0.  Reports the first law that fails."""
+    the statement's laws are evaluated on it by VALUE: P + Q = Q, Q - P = Q, 2 * P = 0, snap_pl([P]) = 0.
+    Returns None (no such leaf) or (replayable history, the values, the first law that fails or None)."""
     E, A, tl = _mods()
     for spec in hist["leaves"]:
         if spec["kind"] != "gdgm":
@@ -1316,21 +1498,37 @@ def placeholder_violation(ctx, hist):
             for what, thunk, want in probes:
                 try:
                     got = np.asarray(thunk())
-                    if got.dtype.kind != "f" or got.tolist() != want:
+                    if not same_function_rows(got, want):
                         failure = "%s = %r instead of %r" % (what, got.tolist(), want)
                 except Exception as e:
                     failure = "%s raised %s" % (what, errtag(e))
                 if failure:
                     break
-        ctx.test("grid_landscape_without_visible_bar_is_zero_function", failure is None)
         h2 = {"cls": "grid", "mode": hist["mode"], "exact": hist["exact"], "leaves": [spec, ones],
               "ops": [["add", 0, 1], ["sub", 1, 0], ["rmul", 0, 2], ["snap", [0], None, None, None]]}
-        ctx.violation("a grid landscape whose bars are all invisible on the grid (values = %r) does not behave as the zero "
-                      "function: %s" % (np.asarray(P.values).tolist(), failure or "values is not a float array"),
-                      {"history": jsonable_hist(h2), "failure": {"law": "zero function with one zero row", "op_index": 0,
-                                                                 "values": np.asarray(P.values).tolist(), "probe": failure}},
-                      found_input=True, reproducer=reproducer(h2))
+        return h2, np.asarray(P.values).tolist(), failure
+    return None
+
+
+def placeholder_violation(ctx, hist):
+    """reports what placeholder_probe finds: a failing input when one of the laws fails on the real code; when the non-float
+    `values` (say an integer array of zeros) behaves as the zero function in every probe, the dtype alone is not fixed by the
+    statement - a correspondence break only"""
+    pr = placeholder_probe(hist)
+    if pr is None:
         return
+    h2, values, failure = pr
+    ctx.test("grid_landscape_without_visible_bar_is_zero_function", failure is None)
+    case = {"history": jsonable_hist(h2), "failure": {"law": "zero function with one zero row", "op_index": 0,
+                                                      "values": values, "probe": failure}}
+    if failure:
+        ctx.violation("a grid landscape whose bars are all invisible on the grid (values = %r) does not behave as the zero "
+                      "function: %s" % (values, failure), case, found_input=True, reproducer=reproducer(h2))
+    else:
+        case["correspondence"] = "dtype of values"
+        report_correspondence(ctx, "values_dtype", "a grid landscape built from a diagram has non-float values %r; it behaves as the "
+                              "zero function in every probe (P + Q, Q - P, 2 * P, snap_pl([P]))" % (values,), case,
+                              reproducer=reproducer(h2))
 
 
 def reproducer(hist, upto=None):
@@ -1481,39 +1679,90 @@ def process(ctx, runs):
                 # search harder on this very history: every register, all sample points, no cap
                 found = deep_search(ctx, run)
             if not laws_done[id(run)]:
-                ctx.violation("code and model disagree (%s) at op %d %r of a %s history: %s%s"
-                              % (kind, i, run.ops[i] if run.ops else None, hist["cls"], what,
-                                 "" if found else "; the pointwise laws hold on the code for this history"),
-                              {"history": jsonable_hist(hist), "correspondence": line.split(" ")[0], "line": line[:3000],
-                               "op_index": i, "code": str(run.outcomes[i])[:300] if run.outcomes else None, "model": what},
-                              found_input=bool(found), reproducer=reproducer(hist, i))
-        if len(ctx.violations) > 5:
+                msg = ("code and model disagree (%s) at op %d %r of a %s history: %s%s"
+                       % (kind, i, run.ops[i] if run.ops else None, hist["cls"], what,
+                          "" if found else "; the statement's laws hold on the code for this history"))
+                case = {"history": jsonable_hist(hist), "correspondence": line.split(" ")[0], "line": line[:3000],
+                        "op_index": i, "code": str(run.outcomes[i])[:300] if run.outcomes else None, "model": what}
+                if found:
+                    ctx.violation(msg, case, found_input=True, reproducer=reproducer(hist, i))
+                else:
+                    report_correspondence(ctx, kind, msg, case, reproducer=reproducer(hist, i))
+        if n_found(ctx) > 5:
             return
 
 
-def deep_search(ctx, run):
-    """failing-input search after a disagreement: the pointwise law at *every* breakpoint, midpoint and
-    outside point (no cap), exact rational evaluation, for every successful exact operation"""
+def deep_laws(ctx, run):
+    """the failing-input search proper: every successful operation of the history re-executed on the real code and its law
+    evaluated without any cap.  Exact histories: the pointwise law at *every* breakpoint, midpoint and outside point, exact
+    rational evaluation.  Grid histories: the samplewise law at every node of every depth; `snap_pl` against the independent
+    rational interpolation; `lc_approx` / `average_approx` against the combination of the re-sampled values AND the re-sampling
+    they use against the interpolation (a history with lc/avg but no snap would otherwise never look at it).
+    Returns the first failure (a dict like those of check_laws, marked "deep") or None; reports nothing itself."""
     hist = run.hist
-    if hist["cls"] != "exact":
-        return False
+    _, _, tl = _mods()
     with np.errstate(all="ignore"):
         regs = [build_leaf(s) for s in hist["leaves"]]
         for i, op in enumerate(run.ops):
+            name = op[0]
+            rej = expected_rejection(hist["cls"], op, regs) or outside_quantifier(op)
             try:
                 res = apply_op(regs, op)
             except Exception:
                 continue
-            if expected_rejection_exact(op, regs) is None and all(finite_landscape(p) for p in regs + [res]):
-                bad = pointwise_exact(op, [cps_of(p) for p in regs], cps_of(res), run.op_exact[i], cap=10 ** 9)
-                bad = known_filter(ctx, op, [cps_of(p) for p in regs], cps_of(res), run.op_exact[i], bad)
+            new = res if isinstance(res, list) else [res]
+            if any(not hasattr(x, "hom_deg") for x in new):
+                continue
+            if rej is None and all(finite_landscape(p) for p in regs + new):
+                ex = run.op_exact[i] if i < len(run.op_exact) else False
+                law, bad = "pointwise", None
+                if hist["cls"] == "exact":
+                    cpss = [cps_of(p) for p in regs]
+                    bad = pointwise_exact(op, cpss, cps_of(res), ex, cap=10 ** 9)
+                    bad = known_filter(ctx, op, cpss, cps_of(res), ex, bad)
+                elif name == "snap":
+                    law, bad = "snap", snap_law([regs[j] for j in op[1]], res, op[2], op[3], op[4])
+                elif name in ("lc", "avg"):
+                    pls = [regs[j] for j in op[1]]
+                    cs = [num_of(c) for c in op[2]] if name == "lc" else [1.0 / len(pls)] * len(pls)
+                    s, t, n = (op[3], op[4], op[5]) if name == "lc" else (op[2], op[3], op[4])
+                    law, bad = "snap (the re-sampling inside %s)" % name, snap_law(pls, tl.snap_pl(pls, start=s, stop=t, num_steps=n), s, t, n)
+                    if not bad:
+                        law, bad = name, lc_law(tl, pls, cs, s, t, n, res)
+                else:
+                    bad = grid_law(op, regs, res, ex)
                 if bad:
-                    ctx.violation("pointwise law fails on the real code at %r (found after a code/model disagreement)" % (bad,),
-                                  {"history": jsonable_hist(hist), "failure": {"op": op, "at": bad}}, found_input=True,
-                                  reproducer=reproducer(hist))
-                    return True
-            regs.append(res)
+                    return {"op_index": i, "op": op, "law": law, "deep": True, "at": bad}
+            regs.extend(new)
+    return None
+
+
+def deep_search(ctx, run):
+    """failing-input search after a code/model disagreement on this very history (deep_laws); at most 60 per run"""
+    if ctx.counters.get("deep_searches", 0) >= 60:
+        return False
+    ctx.count("deep_searches")
+    f = deep_laws(ctx, run)
+    if f:
+        ctx.violation("%s law fails on the real code at op %d %r: %r (found after a code/model disagreement)"
+                      % (f["law"], f["op_index"], f["op"], f["at"]),
+                      {"history": jsonable_hist(run.hist), "failure": f}, found_input=True,
+                      reproducer=reproducer(run.hist, f["op_index"]))
+        return True
     return False
+
+
+def n_found(ctx):
+    """violations with a failing input so far (the search stops after a few of those, never because of correspondence breaks)"""
+    return sum(1 for _, f in ctx.violations if f)
+
+
+def report_correspondence(ctx, key, what, case, **more):
+    """a difference between code and model (or reference tree) that is NOT a failing input of the property: counted always,
+    printed (VIOLATION ... no-failing-input-found) at most three times per run, and it never ends the search"""
+    ctx.count("correspondence_break:" + key)
+    if sum(1 for _, f in ctx.violations if not f) < 3:
+        ctx.violation(what, case, found_input=False, **more)
 
 
 CORPUS = [
@@ -1570,7 +1819,7 @@ def run(ctx):
     r = ctx.rng
     corethm.record(ctx, CORE_THEOREMS, ["PersimVerif/Props/C09.lean"])
     ctx.extra["anchored_digest"] = _digest()
-    n = ctx.n(500, 14000)
+    n = ctx.n(1000, 14000)
     if ANCHOR_DIGEST is not None and ctx.extra["anchored_digest"] != ANCHOR_DIGEST and not ctx.thorough:
         n = 1500            # the anchored functions were rewritten: explore harder (DESIGN 3.2)
         ctx.count("digest_changed")
@@ -1591,7 +1840,7 @@ def run(ctx):
             ctx.count("leaf_rejected:" + runx.leaf_error)
             if runx.leaf_error == "placeholder-values":
                 placeholder_violation(ctx, hist)
-                if len(ctx.violations) > 5:
+                if n_found(ctx) > 5:
                     break
             continue
         nontrivial = any(o[0] == "ok" and op[0] in ("add", "sub", "snap", "lc", "avg") for op, o in zip(runx.ops, runx.outcomes))
@@ -1608,6 +1857,8 @@ def run(ctx):
             if op[0] in ("mul", "rmul", "div") and isinstance(op[2], dict) and "np" in op[2]:
                 ctx.count("scalar:np.%s:%s:%s" % (op[2]["np"], hist["cls"], op[0]))
         ctx.test("operands_untouched", runx.untouched)
+        if runx.private_changes:
+            ctx.count("private_attribute_of_an_operand_rewritten(not part of the property)", runx.private_changes)
         if runx.shared:
             ctx.count("result_shares_operand_depth_lists", runx.shared)
         if hist["cls"] == "exact":
@@ -1621,17 +1872,28 @@ def run(ctx):
                     if zero_row:
                         ctx.test("grid_landscape_without_visible_bar_is_zero_function", True)
         if not runx.untouched:
-            ctx.violation("an operand changed during operation %s of a %s history (byte comparison of every live landscape "
-                          "before/after each operation and of the leaves at the end)" % (runx.touched_at, hist["cls"]),
-                          {"history": jsonable_hist(hist), "failure": {"law": "operands untouched", "op_index": runx.touched_at}},
+            ctx.violation("an operand changed during operation %s of a %s history: [register, public attribute] %r has another VALUE "
+                          "afterwards (every live landscape's public attributes / represented function and the argument lists are "
+                          "compared before/after each operation, the leaves again at the end)"
+                          % (runx.touched_at, hist["cls"], runx.touched_what[:6]),
+                          {"history": jsonable_hist(hist), "failure": {"law": "operands untouched", "op_index": runx.touched_at,
+                                                                       "changed": runx.touched_what[:20]}},
                           found_input=True, reproducer=reproducer(hist))
+        elif runx.repr_only:
+            # same values, other bytes / container types (or a new public attribute): the statement ("observably unchanged")
+            # does not fix these
+            report_correspondence(ctx, "operand_representation",
+                                  "an operand's representation changed but not its value ([op, register, what] %r): public attributes "
+                                  "and the represented function are unchanged by value" % (runx.repr_only[:6],),
+                                  {"history": jsonable_hist(hist), "correspondence": "operand representation (bytes / container types)",
+                                   "changes": runx.repr_only[:20]}, reproducer=reproducer(hist))
         batch.append(runx)
         if len(batch) >= 150:
             process(ctx, batch)
             batch = []
-        if len(ctx.violations) > 5:
+        if n_found(ctx) > 5:
             break
-    if batch and len(ctx.violations) <= 5:
+    if batch and n_found(ctx) <= 5:
         process(ctx, batch)
     ctx.extra["branch_hits"] = cov.summary()
 
@@ -1687,18 +1949,25 @@ def replay(ctx, rep):
     print("outcomes:", [o[0] if o[0] == "ok" else o[1] for o in runx.outcomes])
     print("operands untouched:", runx.untouched)
     if runx.leaf_error == "placeholder-values":
-        print("a grid landscape built from a diagram has non-numeric values (no bar visible on the grid): "
-              "it must be the zero function with one zero row")
-        return False
+        pr = placeholder_probe(hist)
+        print("a grid landscape built from a diagram has non-float values %r (no bar visible on the grid): it must behave as "
+              "the zero function; first law that fails: %s" % (pr[1] if pr else None, pr[2] if pr else None))
+        return pr is None or pr[2] is None
     if runx.leaf_error is not None:
         print("leaf rejected by the constructor:", runx.leaf_error)
         return True
+    if not runx.untouched:
+        print("changed [register, public attribute] at op %s: %r" % (runx.touched_at, runx.touched_what[:10]))
+    if runx.repr_only:
+        print("representation-only changes (not part of the property):", runx.repr_only[:10])
     fails = check_laws(ctx, runx)
-    for f in fails:
+    deep = deep_laws(ctx, runx)         # the uncapped evaluation (what `deep_search` reports)
+    for f in fails + ([deep] if deep else []):
         print("law fails:", f)
     if c.get("correspondence"):
-        print("(this replay records a code/model disagreement; re-run `./check.py C09` with VERIF_SEED=%s for the model side)" % rep.get("seed"))
-    return runx.untouched and not fails
+        print("(this replay records a code/model difference that is not a failing input; re-run `./check.py C09` with "
+              "VERIF_SEED=%s for the model side)" % rep.get("seed"))
+    return runx.untouched and not fails and not deep
 
 
 MANIFEST = {
@@ -1711,7 +1980,9 @@ MANIFEST = {
             "likewise; a depth missing in one operand counts as zero; by structural induction every expression tree over shared "
             "operands (exact and grid landscapes) succeeds and evaluates to the pointwise expression at every depth. Grid side: padded "
             "sum/difference/scalar operations are samplewise with missing rows = 0; each degree/start/stop/num_steps mismatch, a zero "
-            "divisor and a non-number are rejected with the code's error in the code's order; snap_pl is np.interp of every depth at "
+            "divisor and a non-number are rejected by the model with the reference code's error in the code's order (for the verdict on "
+            "the real code any exception on a mismatch counts as rejected; zero divisors and non-numbers are outside 'all real scalars' "
+            "and a different behaviour there, like a different exception class, is a correspondence break only); snap_pl is np.interp of every depth at "
             "the common nodes and np.interp is the linear interpolant with constant extension; lc_approx equals the same combination "
             "of the re-sampled values; average_approx is lc with 1/n, i.e. the mean. The model is tied to the code on every run by "
             "replaying generated histories (0-12 operations on shared operands, results reused) of the real operators at Rat from "
@@ -1727,10 +1998,11 @@ MANIFEST = {
             "(one zero row) are generated on purpose and take part in every operation as the zero function.",
     "note": "Trusted: Lean kernel + Mathlib, axioms propext/Classical.choice/Quot.sound; the correspondence harness and the compiled driver "
             "executable (compiled by Lean's compiler, not checked by the kernel); np.interp/np.linspace/"
-            "np.pad/np.sum(object array) semantics as modelled. [T] only: 'operands observably unchanged' (byte comparison of every "
-            "attribute of every live landscape and of the argument lists around every operation and at the end of every history; "
+            "np.pad/np.sum(object array) semantics as modelled. [T] only: 'operands observably unchanged' (the public attributes of every "
+            "live landscape and the argument lists compared by value around every operation and at the end of every history; new private "
+            "attributes such as caches are ignored, byte-level differences of equal values are a correspondence break only; "
             "aliasing is invisible to a functional model, see also C19; for leaves built with compute=False the represented function is "
-            "compared instead of the cache attributes critical_pairs/max_depth, which the first operation fills) and float rounding "
+            "compared instead of the cache attributes critical_pairs/values/max_depth, which the first operation fills) and float rounding "
             "(tolerance 1e-9 relative to the largest magnitude occurring anywhere in the history, because the model replays the whole "
             "history exactly). Observation, counted "
             "(result_shares_operand_depth_lists) and not failed: exact +/- put the deeper operand's own depth lists into the result "
